@@ -94,14 +94,16 @@ func (v Val) String() string {
 	return fmt.Sprintf("INT(t%d)%v", v.Type, v.Ints)
 }
 
-func S(s string) Val               { return Val{Type: TASCII, Str: s} }
-func Short(v ...uint32) Val        { return Val{Type: TShort, Ints: v} }
-func Long(v ...uint32) Val         { return Val{Type: TLong, Ints: v} }
-func Byte(v ...uint32) Val         { return Val{Type: TByte, Ints: v} }
-func Rat(v ...[2]uint32) Val       { return Val{Type: TRational, Rats: v} }
-func SRat(n int32, d int32) Val    { return Val{Type: TSRational, Rats: [][2]uint32{{uint32(n), uint32(d)}}} }
-func r(n, d uint32) [2]uint32      { return [2]uint32{n, d} }
-func rep(c byte, n int) string     { return strings.Repeat(string(c), n) }
+func S(s string) Val         { return Val{Type: TASCII, Str: s} }
+func Short(v ...uint32) Val  { return Val{Type: TShort, Ints: v} }
+func Long(v ...uint32) Val   { return Val{Type: TLong, Ints: v} }
+func Byte(v ...uint32) Val   { return Val{Type: TByte, Ints: v} }
+func Rat(v ...[2]uint32) Val { return Val{Type: TRational, Rats: v} }
+func SRat(n int32, d int32) Val {
+	return Val{Type: TSRational, Rats: [][2]uint32{{uint32(n), uint32(d)}}}
+}
+func r(n, d uint32) [2]uint32  { return [2]uint32{n, d} }
+func rep(c byte, n int) string { return strings.Repeat(string(c), n) }
 func seqStr(n int) string {
 	b := make([]byte, n)
 	for i := range b {
